@@ -26,7 +26,11 @@ Creation = the calculator is precomputed for the list and the wavelength it was 
 Derived  = material objects are reused: m is looked at and used in a calculator, THEN 6*m, m+o, o+m are built or m
          is extended in place (m += o) and the derived material is used in a second calculator (alone, with m, after
          o) at the same or another wavelength argument; the second calculator is judged against the direct route on
-         the composition the check computes itself, the first one is judged again."""
+         the composition the check computes itself, the first one is judged again.
+Sweeps   = single calls (all weights, densities, wavelength forms) over two further material alphabets: every
+         energy-dependent atom of the library (element and isotope forms, neutral and 3+ ion) as the only tabulated atom
+         of a material and of a list, and as one of two; materials with fractional or very large atom counts in every
+         position of lists of 1..3."""
 import copy
 import itertools
 import math
@@ -72,7 +76,15 @@ META = dict(
           "(second calculator [d] | [d,m] | [o,d]) x 5 pairs of wavelength forms on fresh Formula objects; m is read "
           "(str, mass, atoms, hill) and used once, then d is derived and used; weights {0, 1, 3}^n x density {1, 2.5} "
           "on the second calculator and again on the first; each derivation is first executed on objects that were "
-          "never used (control, plain signatures)"),
+          "never used (control, plain signatures).  SWEEPS (single calls, 4^n weights x 3 densities x all wavelength forms): "
+          "(a) every atom X whose scattering length varies with the wavelength (the keys of the pinned energy tables, "
+          "natural Lu whose table is derived when the data are attached, and any atom of the tree that carries a table), "
+          "neutral and as X{3+}: lists [X], [X2O3], [X, X], [X, H2O], [H2O, X], [X2O3, H2O], [H2O, X2O3], [X2O3, X], and for "
+          "neutral X the three positions of X among H2O, Au; every ordered pair [X, Y] of two different such atoms, and "
+          "every unordered pair inside one material [XY3], [XY3, H2O]; (b) materials whose atoms per formula unit are not "
+          "a whole number (Fe0.947O, Ce0.9Gd0.1O1.95, H0.5 with a total below one, Ni0.7Cu0.2Zn0.1 whose total is "
+          "0.9999999999999999) or exceed 32 bits (C4294967297H8589934596): all lists of length 1..2 over these five and "
+          "H2O, Gd2O3, Au, and all lists of length 3 over the first three, H2O and Gd2O3, that contain at least one of them"),
     bound=dict(
         quick="all 156 lists of length 1..2 and the 408 lists of length 3 in which a material is repeated; 4^n weight "
               "vectors; 3 densities; wavelength forms default, float, "
@@ -84,13 +96,16 @@ META = dict(
               "length-n array} x 2 second calculators x all 36 + 216 series of 2..3 calls over 2 calculators x 3 "
               "arguments.  Creation-time values: the 42 lists of length <= 2 over these 6 materials x "
               "forms {default, float, length-1 / length-4 / length-n array, length-4 list} x 4-6 edits x 2 timings x all "
-              "states.  Derived materials: 1320 histories + 528 controls",
+              "states.  Derived materials: 1320 histories + 528 controls.  Sweeps: 15 energy-dependent atoms x {neutral, "
+              "3+} -> 285 lists with one tabulated atom, 420 lists with two; 177 lists with fractional / large counts; "
+              "all nine wavelength forms, all weights and densities",
         thorough="all 1884 lists of length 1..3; 4^n weight vectors; 3 densities; the same nine wavelength forms.  "
                  "Histories: every list of length 1..2 with all states and all nine forms; lists of 3 over the 6 "
                  "materials above with weights {0, 1, 3}^3 x density {1, 2.5} (2916 ordered pairs), all nine forms.  Call series: "
                  "these lists x all nine forms x 2 second calculators x all 64 + 512 series of 2..3 calls over 2 "
                  "calculators x 4 arguments.  "
-                 "Creation-time values: all 156 lists of length <= 2 x all nine forms.  Derived materials as in quick"),
+                 "Creation-time values: all 156 lists of length <= 2 x all nine forms.  Derived materials as in quick.  "
+                 "Sweeps as in quick"),
     assumptions=[
         "the formula sum_i w_i*material_i is handed to neutron_sld as the atom dictionary {atom: sum_i w_i*count_i} "
         "built by the check from each material's .atoms (formula arithmetic itself is C02)",
@@ -117,6 +132,9 @@ META = dict(
         "a result handed out by the calculator is the caller's from then on (the statement says what the calculator "
         "RETURNS; a returned value that changes when the calculator is used again, or when the caller refills its own "
         "weight array, is not that value any more): kept results are compared by dtype, shape and bytes",
+        "sweeps: counts up to 2^33 (exactly representable; a polymer), not beyond 2^53; ions of the energy-dependent atoms "
+        "are the 3+ ions (every such element lists charge 3); the sweeps make single calls only (histories do not depend on "
+        "which atoms a material is made of beyond what the history materials already cover)",
         "histories longer than two calls are covered as they occur inside the walks (each call is judged, but "
         "not every triple of states occurs) and exhaustively up to three calls over the 3-4 arguments of the call series; private tables are not in the alphabet (the calculator has no table= "
         "argument; per-table data is C10 / C20)",
@@ -209,6 +227,9 @@ class Env(object):
         return material_code(MATERIALS[i])
 
     def pyname(self, a):
+        q = getattr(a, "charge", 0)
+        if q:
+            return "%s.ion[%d]" % (self.pyname(a.element), q)       # the element or isotope the ion is an ion of
         if hasattr(a, "isotope"):
             if a.symbol in ("D", "T"):
                 return "pt.%s" % a.symbol
@@ -1153,9 +1174,122 @@ class _Renamed(object):
         setattr(self._acc, name, value)
 
 
+# ---------------------------------------------------------------------------------------------
+# sweeps of the material alphabet (single calls only: all weights, densities and wavelength forms of the first pass)
+#
+# (a) ENERGY-DEPENDENT ATOMS: the calculator looks the scattering lengths up per material and per wavelength; which atoms
+#     vary with the wavelength is the library's own knowledge (the tables of Lynn & Seeger, and natural Lu whose table
+#     is mixed from Lu-175 and the Lu-176 resonance when the data are attached).  EVERY such atom - element and isotope
+#     forms, neutral and as the 3+ ion - is the ONLY tabulated atom of a material (alone; with constant atoms), of a
+#     list (alone, before / after / between constant materials), is one of two tabulated atoms (every ordered pair as
+#     a list of two materials, every unordered pair inside one material) - at every wavelength form.
+# (b) FRACTIONAL AND LARGE COUNTS: materials whose atoms per formula unit are not a whole number (0.5, 1.947, 2.95,
+#     0.7 + 0.2 + 0.1) or do not fit 32 bits, in every position of lists of 1..3 materials.
+ED_FALLBACK = (("Sm", 0), ("Sm", 149), ("Eu", 0), ("Eu", 151), ("Gd", 0), ("Gd", 155), ("Gd", 157), ("Dy", 164),
+               ("Er", 0), ("Er", 167), ("Yb", 0), ("Yb", 168), ("Yb", 174), ("Lu", 0), ("Lu", 176))
+ED_CHARGE = 3
+SWEEP_CONST = ("H2O", "Au")
+FRACTIONAL = ("Fe0.947O", "Ce0.9Gd0.1O1.95", "H0.5", "Ni0.7Cu0.2Zn0.1", "C4294967297H8589934596")
+FRACTIONAL_PARTNERS = ("H2O", "Gd2O3", "Au")
+
+
+def energy_dependent_atoms():
+    """(symbol, A or 0) of every atom whose scattering length varies with the wavelength: the keys of the pinned copy of
+    the energy tables, natural Lu, and whatever else the library under test attaches a table to."""
+    from ..ref import tables as rt
+    pt = load_pt()
+    keys = set((sym, a or 0) for sym, a in rt.energy_tables()) | set(ED_FALLBACK)
+    for el in pt.elements:
+        for a, atom in [(0, el)] + [(i, el[i]) for i in el.isotopes]:
+            nd = getattr(atom, "neutron", None)
+            if nd is not None and getattr(nd, "nsf_table", None) is not None:
+                keys.add((el.symbol, a))
+    return sorted(keys)
+
+
+def _atom_text(sym, a, q=0):
+    return sym + ("[%d]" % a if a else "") + ("{%d+}" % q if q else "")
+
+
+def sweep_lists():
+    """-> [(class, tuple of material texts)]"""
+    out = []
+    ed = energy_dependent_atoms()
+    c1, c2 = SWEEP_CONST
+    for sym, a in ed:
+        for q in (0, ED_CHARGE):
+            x = _atom_text(sym, a, q)
+            ox = x + "2O3"
+            cls = "energy-dependent-atom-alone" if q == 0 else "energy-dependent-ion-alone"
+            out += [(cls, t) for t in ((x,), (ox,), (x, x), (x, c1), (c1, x), (ox, c1), (c1, ox), (ox, x))]
+            if q == 0:
+                out += [(cls, t) for t in ((x, c1, c2), (c1, x, c2), (c1, c2, x))]
+    for i, (s1, a1) in enumerate(ed):
+        for j, (s2, a2) in enumerate(ed):
+            if i == j:
+                continue
+            x, y = _atom_text(s1, a1), _atom_text(s2, a2)
+            out.append(("two-energy-dependent-atoms", (x, y)))
+            if i < j:
+                out.append(("two-energy-dependent-atoms", (x + y + "3",)))
+                out.append(("two-energy-dependent-atoms", (x + y + "3", c1)))
+    alpha = FRACTIONAL + FRACTIONAL_PARTNERS
+    for n in (1, 2):
+        out += [("fractional-counts", t) for t in itertools.product(alpha, repeat=n) if set(t) & set(FRACTIONAL)]
+    alpha3 = FRACTIONAL[:3] + FRACTIONAL_PARTNERS[:2]
+    out += [("fractional-counts", t) for t in itertools.product(alpha3, repeat=3) if set(t) & set(FRACTIONAL)]
+    return out
+
+
+def sweep_list(E, acc, cls, texts, forms):
+    """One list of the sweep: all weights, densities and wavelength forms, single calls on fresh arrays."""
+    from periodictable import formula
+    V = DerivedEnv(E, dict(mode="sweep", sweep=cls))
+    idx = {}
+    for t in texts:
+        if t not in idx:                       # a repeated material is the same Formula object, as in the first pass
+            f = formula(t)
+            idx[t] = V.add(t, f, f.atoms.items(), "formula(%r)" % t)
+    mats = [idx[t] for t in texts]
+    n = len(mats)
+    for form in forms:
+        if form == "arrN" and n == 1:
+            continue
+        lc = ListCheck(V, mats, form)
+        if not lc.build(acc):
+            continue
+        ok = True
+        for weights in itertools.product(WEIGHTS, repeat=n):
+            for density in DENSITIES:
+                if not lc.check(acc, weights, density):
+                    ok = False
+                    break
+            if not ok:
+                break
+        if ok:
+            lc.arguments_intact(acc, lc._mats, lc._wl_before, "calls")
+            acc.outcome("sweep:%s:%s:ok" % (cls, lc.kind))
+    acc.count("sweep_lists:%s" % cls)
+
+
+def _sweep_shard(args):
+    lists, tier = args
+    E = Env()
+    acc = Acc()
+    forms = FORMS_QUICK if tier == "quick" else FORMS_THOROUGH
+    for k, (cls, texts) in enumerate(lists):
+        sweep_list(E, acc, cls, texts, forms)
+        if k == 0:
+            acc.sample(dict(mode="sweep", sweep=cls, materials=list(texts)))
+    acc.traces = acc.transitions
+    return acc
+
+
 def _shard(args):
     if args[0] == "derive":
         return _derive_shard(args[1:])
+    if args[0] == "sweep":
+        return _sweep_shard(args[1:])
     lists, tier, _ = args
     E = Env()
     acc = Acc()
@@ -1177,7 +1311,17 @@ def run(ctx):
     plans = derive_plan()
     for key in sorted(set(p[:2] for p in plans)):              # one shard per (base, other)
         jobs.append(("derive", [p for p in plans if p[:2] == key], ctx.tier))
+    sweeps = sweep_lists()
+    order = sorted(range(len(sweeps)), key=lambda i: (-len(sweeps[i][1]), i))       # triples first, dealt round-robin
+    nsw = 32
+    for k in range(nsw):
+        part = [sweeps[i] for i in order[k::nsw]]
+        if part:
+            jobs.append(("sweep", part, ctx.tier))
     ctx.pmap(_shard, jobs)
+    ctx.acc.info["sweep_lists"] = len(sweeps)
+    ctx.acc.info["energy_dependent_atoms"] = ["%s%s" % (sym, "[%d]" % a if a else "") for sym, a in energy_dependent_atoms()]
+    ctx.acc.info["fractional_materials"] = list(FRACTIONAL)
     ctx.acc.info["derivation_histories"] = len(plans)
     acc = ctx.acc
     acc.traces = acc.transitions
@@ -1195,6 +1339,13 @@ def replay(ctx, case, signature=None):
         acc = ctx.acc if case["mode"] == "derived-after-use" else _Renamed(ctx.acc, "derived-material:")
         derivation_history(E, acc, case["base"], case["other"], case["derivation"], case["first"], case["second"],
                            (case["wl1"], case["wl"]), use_first=(case["mode"] == "derived-after-use"))
+        return
+    if case.get("mode") == "sweep":
+        scratch = Acc()
+        sweep_list(E, scratch, case.get("sweep", "replay"), tuple(case["materials"]), [case["wl"]])
+        for sig, rec in scratch.viol.items():
+            if signature is None or sig == signature:
+                ctx.acc.viol[sig] = rec
         return
     try:
         mats = [MATERIALS.index(s) for s in case["materials"]]
